@@ -7,7 +7,7 @@ use lazy_static::lazy_static;
 use nom::bytes::complete::escaped;
 use nom::combinator::not;
 use nom::multi::{fold_many0, fold_many1};
-use nom::sequence::{delimited, separated_pair};
+use nom::sequence::delimited;
 use nom::{
     branch::alt,
     bytes::complete::{take, take_while, take_while1},
@@ -766,26 +766,13 @@ fn sort(input: Span) -> IResult<Span, Operator> {
     .parse(input)
 }
 
-fn filter_explicit_and(input: Span) -> IResult<Span, Option<Search>> {
-    separated_pair(low_filter, tag("AND").delimited_by(multispace1), low_filter)
-        .map(|p| match p {
-            (Some(l), Some(r)) => Some(Search::And(vec![l, r])),
-            (Some(l), None) => Some(l),
-            (None, Some(r)) => Some(r),
-            (None, None) => None,
-        })
-        .parse(input)
-}
-
-fn filter_explicit_or(input: Span) -> IResult<Span, Option<Search>> {
-    separated_pair(mid_filter, tag("OR").delimited_by(multispace1), mid_filter)
-        .map(|p| match p {
-            (Some(l), Some(r)) => Some(Search::Or(vec![l, r])),
-            (Some(l), None) => Some(l),
-            (None, Some(r)) => Some(r),
-            (None, None) => None,
-        })
-        .parse(input)
+/// Combines the operands of a chain of `AND`s / `OR`s; empty keywords drop out
+fn filter_chain(make: fn(Vec<Search>) -> Search, operands: Vec<Option<Search>>) -> Option<Search> {
+    let mut operands: Vec<Search> = operands.into_iter().flatten().collect();
+    match operands.len() {
+        0 | 1 => operands.pop(),
+        _ => Some(make(operands)),
+    }
 }
 
 fn low_filter(input: Span) -> IResult<Span, Option<Search>> {
@@ -807,11 +794,15 @@ fn low_filter(input: Span) -> IResult<Span, Option<Search>> {
 }
 
 fn mid_filter(input: Span) -> IResult<Span, Option<Search>> {
-    alt((filter_explicit_and, low_filter))(input)
+    separated_list1(tag("AND").delimited_by(multispace1), low_filter)
+        .map(|operands| filter_chain(Search::And, operands))
+        .parse(input)
 }
 
 fn high_filter(input: Span) -> IResult<Span, Option<Search>> {
-    alt((filter_explicit_or, mid_filter))(input)
+    separated_list1(tag("OR").delimited_by(multispace1), mid_filter)
+        .map(|operands| filter_chain(Search::Or, operands))
+        .parse(input)
 }
 
 fn end_of_query(input: Span) -> IResult<Span, Span> {
